@@ -8,7 +8,10 @@ TEXTS = ['Home', 'HOME', 'home', 'Read more', 'read more', 'About us', 'Contact'
          'Ärger', 'ärger', 'İstanbul', 'Straße', 'x', 'Data &amp; Tools', '&lt;b&gt;bold&lt;/b&gt;', '  spaced  out ', '']
 HREFS = ['/1', '/2', '/3', '/news/1', '/news/2', '/news/3', 'https://www.example.gov/reports', 'HTTPS://WWW.Example.GOV/reports',
          'https://www.example.gov/Reports', '//cdn.Example.org/x', 'http://a.test/', 'http://a.test', 'mailto:someone@example.org',
-         'b)(c', 'c', '?q=1&amp;r=2', '#top', '#', '', 'javascript:void(0)', 'HTTP://USER@Host.Test:80/Path?Q#F', 'ftp+ssh-x://Host/p']
+         'b)(c', 'c', '?q=1&amp;r=2', '#top', '#', '', 'javascript:void(0)', 'HTTP://USER@Host.Test:80/Path?Q#F', 'ftp+ssh-x://Host/p',
+         # targets that differ only in what a URL library would normalise away: empty query / fragment, embedded blanks, case after the host
+         'https://h.test/search?', 'https://h.test/search', 'https://h.test/data/#', 'https://h.test/data/', 'https://h.test/a\tb', 'https://h.test/ab',
+         'http://Host.test?Q=A', 'http://host.test?q=a', ' https://h.test/search', 'http://[server]/x', 'http://[::1/x']
 INNER = ['', '<img src="i.png" alt="Logo">', '<img src="i.png">', '<img alt="">', '<script>var a=1;</script>', '<style>a{}</style>',
          '<span>in span</span>', '<svg><title>t</title></svg>', '<b>bold</b> ', '<!-- c -->']
 
@@ -224,7 +227,9 @@ def run(rep, ctx):
               ('<a href="b)(c">a</a><a href="c">a(b)</a>', '<a href="c">a(b)</a><a href="b)(c">a</a>'),
               ('<a href="https://www.example.gov/reports">R</a><a href="HTTPS://WWW.Example.GOV/reports">R</a>', '<a href="https://www.example.gov/reports">R</a>'),
               ('<a href="/x">A</a><a href="/y">B</a>', '<a href="/y">A</a><a href="/x">B</a>'),
-              ('<a href="/p1">Pony time!</a><a href="/p2">Pony time!</a>', '<a href="/p2">Pony time!</a><a href="/d">Donkey time.</a>')]
+              ('<a href="/p1">Pony time!</a><a href="/p2">Pony time!</a>', '<a href="/p2">Pony time!</a><a href="/d">Donkey time.</a>'),
+              ('<a href="https://h.test/search?">S</a><a href="https://h.test/search">S</a><a href="https://h.test/data/#">D</a>', '<a href="https://h.test/search">S</a><a href="https://h.test/data/">D</a>'),
+              ('<a href="http://Host.test?Q=A">q</a>', '<a href="http://host.test?q=a">q</a>'), ('<a href="https://h.test/a\tb">t</a>', '<a href="https://h.test/ab">t</a>')]
     # small-scope exhaustive: every page of at most 2 (quick) / 3 (thorough, sampled down to every other page) links over 3 texts
     # (two differing in case only) x 3 targets (one in-page) against every other one
     import itertools
